@@ -42,7 +42,7 @@ def gen_adapter(tape, kinds):
 
 def gen_chain(tape, *, pull_source=False, max_len=3, allow_buffering=True, allow_delay=True,
               allow_delay_push=True, delay_after_buffer_only=False, allow_integrating=True,
-              delay_push_after_pull=False):
+              delay_push_after_pull=False, delay_after_avg=False):
     """Random adapter chain (source side first)."""
     n = tape.weighted([(0, 8), (1, 7), (2, 4), (3, 2)])
     n = min(n, max_len)
@@ -61,6 +61,12 @@ def gen_chain(tape, *, pull_source=False, max_len=3, allow_buffering=True, allow
                 # behind a pull-based source the adapter is never notified of a publication: what it delivers is
                 # unspecified, but the link still has to be servable
                 kinds += ["delay_push"]
+        if allow_delay and have_integ and delay_after_avg and chain and all(
+                x["kind"] in ("avg", "scale", "callback", "delay_fixed", "delay_pull") for x in chain) and \
+                any(x["kind"] == "avg" for x in chain):
+            # an averaging adapter upstream of delay adapters: while the delayed request is clamped to the initial
+            # time it is asked for that time again and again and answers with the initial value
+            kinds = list(PASS) + ["delay_fixed", "delay_pull"]
         a = gen_adapter(tape, kinds)
         k = a["kind"]
         if k in ("avg", "sum"):
@@ -103,7 +109,8 @@ def split_delay(tape, total, parts):
 def gen_e1(tape, tier="quick", *, allow_pull=True, allow_cycles=True, allow_delay_push=True,
            allow_omission=True, allow_finish=False, allow_offsets=True, allow_faults=True,
            allow_delay=True, allow_buffering=True, allow_integrating=True, max_sim=5,
-           cycle_regime=None, pull_fanout=True, cycle_chance=(1, 3), adapter_fanout=True, allow_sinks=True, allow_static=True, allow_real=True, sorted_diamond=False):
+           cycle_regime=None, pull_fanout=True, cycle_chance=(1, 3), adapter_fanout=True, allow_sinks=True, allow_static=True, allow_real=True, sorted_diamond=False,
+           allow_adaptive=True):
     n_sim = tape.weighted([(2, 5), (3, 6), (4, 3), (5, 2)])
     n_sim = min(n_sim, max_sim)
     n_pull = tape.weighted([(0, 6), (1, 3), (2, 1)]) if allow_pull else 0
@@ -209,7 +216,10 @@ def gen_e1(tape, tier="quick", *, allow_pull=True, allow_cycles=True, allow_dela
             chain = gen_chain(tape, pull_source=ps, allow_delay_push=allow_delay_push,
                               allow_delay=allow_delay and not integ_up, allow_buffering=allow_buffering,
                               allow_integrating=allow_integrating,
-                              delay_push_after_pull=ps and not (comp_upstream_kinds(src) & {"avg", "sum", "delay_pull"}))
+                              delay_push_after_pull=ps and not (comp_upstream_kinds(src) & {"avg", "sum", "delay_pull"}),
+                              # (the source has to start with the composition: a later start means two initial
+                              # publications, and the repeated request is then not for the first buffered entry)
+                              delay_after_avg=comps[src]["kind"] == "sim" and comps[src]["start"] == 0)
             add_link(src, ci, chain)
 
     # static sources: one publication valid for every time, read by static or ordinary inputs
@@ -415,6 +425,27 @@ def gen_e1(tape, tier="quick", *, allow_pull=True, allow_cycles=True, allow_dela
                     break
             cy["need"] = need2
 
+    # adaptive stepping: a leaf consumer with a push-based "alarm" input; a notification at one of the chosen times
+    # switches the length of the step it is about to do while it waits (its time is unchanged, its announced next
+    # time is not) - what the driver is told and what is then requested still have to agree
+    if allow_adaptive and tape.chance(1, 8):
+        leaves = [i for i, c in enumerate(comps) if c["kind"] == "sim" and not c["outputs"] and c["inputs"]
+                  and c.get("finish_at") is None]
+        srcs = [i for i, c in enumerate(comps) if c["kind"] == "sim" and c["outputs"]]
+        if leaves and srcs:
+            ci = leaves[tape.draw(len(leaves))]
+            src = srcs[tape.draw(len(srcs))]
+            if src != ci:
+                ln = add_link(src, ci, [], share=False)
+                ai = comps[ci]["inputs"][ln["dst"][1]]
+                ai["alarm"], ai["initial_pull"] = True, False
+                t, ticks = comps[src]["start"], []
+                for k in range(14):
+                    t += comps[src]["steps"][k % len(comps[src]["steps"])]
+                    ticks.append(t)
+                comps[ci]["adaptive"] = {"alt": tape.choice([1, 2, 3, 5]),
+                                         "at": sorted({ticks[tape.draw(len(ticks))] for _ in range(tape.rng_int(1, 4))})}
+
     # usage variants: metadata handed over in connect instead of at initialisation, outputs nobody reads
     for c in comps:
         if c["kind"] != "sim":
@@ -433,7 +464,7 @@ def gen_e1(tape, tier="quick", *, allow_pull=True, allow_cycles=True, allow_dela
     if allow_real:
         for ci, c in enumerate(comps):
             if c["kind"] != "sim" or len(c["steps"]) != 1 or c.get("push_first") or c.get("next_none") or \
-                    c.get("finish_at") is not None or c.get("cache") is False:
+                    c.get("finish_at") is not None or c.get("cache") is False or c.get("adaptive"):
                 continue
             if any(o.get("nopush") or o.get("static") or o.get("info_at_init") is False for o in c["outputs"]) or \
                     any(i.get("dup") or i.get("skip") or i.get("static") or i.get("info_at_init") is False
@@ -487,5 +518,5 @@ def update_budget(sc):
             extra = max(extra, len(o.get("nopush", ())) + 1)
     tot = 0
     for c in sims:
-        tot += -(-(horizon + extra * max(c["steps"])) // min(c["steps"])) + 2
+        tot += -(-(horizon + extra * max(c["steps"])) // min(c["steps"] + ([c["adaptive"]["alt"]] if c.get("adaptive") else []))) + 2
     return 4 * tot + 20
